@@ -24,6 +24,8 @@ TECHNIQUE = "static analysis: exhaustive abstract evaluation of lookup/registrat
 
 def run(chk, ix, tier):
     rules_matching.check_lookup(chk, ix)
+    rules_matching.check_lookup_sequences(chk, ix)
+    rules_matching.check_matcher_factory(chk, ix)
     rules_matching.check_registration(chk, ix)
     rules_matching.check_dispatch(chk, ix)
     rules_matching.check_fulltext(chk, ix)
@@ -31,5 +33,5 @@ def run(chk, ix, tier):
     rules_matching.check_parser_ownership(chk, ix)
     rules_matching.check_type_registry_sharing(chk, ix)
     rules_order.check_match_protection(chk, ix)
-    for r, n in (("M1", 5), ("M2", 16), ("M3", 10), ("M4", 2), ("M5", 3), ("M6", 1), ("M7", 1), ("M8", 1), ("M9", 3)):
+    for r, n in (("M1", 5), ("M2", 36), ("M3", 10), ("M4", 2), ("M5", 3), ("M6", 300), ("M7", 1), ("M8", 1), ("M9", 3)):
         chk.require_instances(r, n)
